@@ -290,6 +290,11 @@ def parse_with_replay(P, fname, tree, args_for, out_base, str_len=None):
         n = v["v"][1] if v["k"] == "bin" else (BINLEN if str_len is None else str_len)
         if len(a) > 1:
             sem.set_out(it, a[1], n)
+        if isinstance(p, tuple) and isinstance(n, int) and 0 < n <= 64 and isinstance(p[1], int):
+            # the bytes of the string / binary are ordinary non-NUL bytes: a parser that copies them itself (length scan,
+            # byte loop) meets the same content as one that hands them to the arena's copy helpers
+            for i_ in range(n):
+                it.heap.setdefault((p[0], p[1] + i_), 0x61 + (i_ % 26))
         return Ptr(p[0], p[1], 1) if isinstance(p, tuple) else p
 
     def lbegin(ev, a, it):
@@ -613,6 +618,49 @@ def check(ctx, rule="R5.roundtrip", roundtrip=True, only=None):
         # the same footer with every string empty: a zero-length name / key / created_by is a value like any other and
         # comes back as a string (not as "absent")
         if rname == "parquet_file_metadata":
+            # the same footer with the optional KeyValue.value absent in every second pair of each key/value list: what one
+            # list element leaves unset must not be filled from the element before it
+            key1 = key + "|sparse-values"
+            what1 = ("with KeyValue.value absent in the second pair of every key/value list, %s leaves it absent there and fills the first pair's" % pname)
+            try:
+                g2 = Graph(P)
+                g2.populate(rname, "obj", 0, sname)
+                kvr = g2.rec("parquet_key_value")
+                voff = [f["off"] // 8 for f in (kvr["fields"] if kvr else []) if f["n"] == "value"]
+                absent = []
+                if kvr is not None and voff:
+                    for b_, what_ in list(g2.blocks.items()):
+                        if what_.endswith("key_value_metadata[]"):
+                            kk = (b_, 1 * kvr["size"] + voff[0])
+                            if isinstance(g2.heap.get(kk), Ptr):
+                                g2.heap[kk] = 0
+                                absent.append(kk)
+                if not absent:
+                    raise sem.Inconclusive("no key/value list found in the populated object")
+                retw, evw = writer_events(P, wname, g2, "obj")
+                if retw != 0:
+                    raise sem.Inconclusive("the writer returns %s" % (retw,))
+                tree2 = build_tree(evw)
+                ret4, ev4, heap4, copies4, rp4 = parse_with_replay(P, pname, tree2, args_for, "out")
+                out4 = []
+                compare(g2, g2.heap, rname, "obj", 0, heap4, "out", 0, copies4, out4, sname)
+                wrong = []
+                for here, path, same, how, orig in out4:
+                    if here != "parquet_key_value.value" or here in lost:
+                        continue
+                    if orig == 0:
+                        # absent in the original: must not have become a string
+                        nvp = how.split("parsed ")[-1]
+                        if not nvp.startswith(("0", "None")):
+                            wrong.append("%s: written absent, parsed as %s" % (path, nvp[:40]))
+                    elif not same:
+                        wrong.append("%s: %s" % (path, how[:60]))
+                if ret4 != 0:
+                    ctx.ob(rule, key1, P.where(wfn.body), what1, False, "the parser returns %s" % (ret4,))
+                else:
+                    ctx.ob(rule, key1, P.where(wfn.body), what1 + " (%d lists)" % len(absent), not wrong, "; ".join(wrong[:4]))
+            except (sem.Inconclusive, ValueError, KeyError, AssertionError, IndexError) as ex:
+                ctx.inconclusive(rule, key1, P.where(wfn.body), what1, "%s: %s" % (type(ex).__name__, ex))
             key0 = key + "|empty-strings"
             what0 = "with every string member empty (length 0 on the wire) %s still fills the string members %s wrote" % (pname, wname)
             try:
